@@ -27,13 +27,31 @@ package gen
 //@   free-requires fieldInv(self)
 //@   modifies allexcept("parquet.Metadata", "[]parquet.RowGroup", "GEN.ParquetWriter")
 
-//@ template T in Int32 Int64 Uint32 Uint64 Float32 Float64 String
+//@ template T in String
 //@ loop (*{T}Field).Write#1
 //@   modifies buf, HA(buf.B), HA(bs)
 //@   invariant buf != nil && freshsince(buf) && freshOrNil(buf.B) && freshsince(bs)
 //@ loop (*{T}OptionalField).Write#1
 //@   modifies buf, HA(buf.B), HA(bs)
 //@   invariant buf != nil && freshsince(buf) && freshOrNil(buf.B) && freshsince(bs)
+//@ end template
+
+// C01: the value section handed to DoWrite is the PLAIN encoding of the buffered
+// values, in order: after k iterations the buffer holds k little-endian values of the
+// column's width whose bit patterns are those of the first k values.
+//@ pred le4at(b, o) := b[o] + 256*b[o+1] + 65536*b[o+2] + 16777216*b[o+3]
+//@ pred le8at(b, o) := b[o] + 256*b[o+1] + 65536*b[o+2] + 16777216*b[o+3] + 4294967296*b[o+4] + 1099511627776*b[o+5] + 281474976710656*b[o+6] + 72057594037927936*b[o+7]
+//@ template T in Int32:int32:4 Int64:int64:8 Uint32:uint32:4 Uint64:uint64:8 Float32:float32:4 Float64:float64:8
+//@ loop (*{T}Field).Write#1
+//@   modifies buf, HA(buf.B), HA(bs)
+//@   invariant buf != nil && freshsince(buf) && freshOrNil(buf.B) && freshsince(bs)
+//@   invariant[C01] 0 <= rangeindex + 1 && rangeindex + 1 <= #f.vals && #buf.B == {T2} * (rangeindex + 1) && #bs == {T2} && ref(buf.B) != ref(bs)
+//@   invariant[C01] forall k in 0..rangeindex + 1: le{T2}at(buf.B, {T2} * k) == bits_{T1}(f.vals[k])
+//@ loop (*{T}OptionalField).Write#1
+//@   modifies buf, HA(buf.B), HA(bs)
+//@   invariant buf != nil && freshsince(buf) && freshOrNil(buf.B) && freshsince(bs)
+//@   invariant[C01] 0 <= rangeindex + 1 && rangeindex + 1 <= #f.vals && #buf.B == {T2} * (rangeindex + 1) && #bs == {T2} && ref(buf.B) != ref(bs)
+//@   invariant[C01] forall k in 0..rangeindex + 1: le{T2}at(buf.B, {T2} * k) == bits_{T1}(f.vals[k])
 //@ end template
 
 //@ loop (*BoolField).Write#1
